@@ -18,7 +18,7 @@ TRUSTED = {
 }
 
 CANARIES = [
-    ("vp_canary_set_input", "proof fn vp_canary_set_input(c: HostContext, idx: u32, w: Seq<u64>) requires (idx as int) < c.ports@.len(), wf_port(c.ports@[idx as int]), "
+    ("vp_canary_set_input", "proof fn vp_canary_set_input(c: HostContext, idx: u32, w: Seq<u64>) requires (idx as int) < c.ports@.len(), c.ports@[idx as int].dir == PortDir::Input, wf_port(c.ports@[idx as int]), "
                             "w.len() >= c.ports@[idx as int].words@.len(), c.ports@[idx as int].width > 128, c.ports@.len() > 2 ensures false {}"),
     ("vp_canary_write_output", "proof fn vp_canary_write_output(c: HostContext, idx: u32, w: Seq<u64>, m: Option<Seq<u64>>) requires (idx as int) < c.ports@.len(), "
                                "c.ports@[idx as int].dir == PortDir::Output, wf_port(c.ports@[idx as int]), w.len() == c.ports@[idx as int].words@.len(), "
@@ -26,9 +26,22 @@ CANARIES = [
     ("vp_canary_mask_top", "proof fn vp_canary_mask_top(w: Seq<u64>, width: u32) requires w.len() == nwords(width), width % 64 == 3, width > 64 ensures false {}"),
 ]
 
-PORT_PRE = "(idx as int) < old(self).ports@.len(),"
+# the dropped `debug_assert_eq!(port.dir, PortDir::Input)` is kept as a precondition
+PORT_PRE = "(idx as int) < old(self).ports@.len(), old(self).ports@[idx as int].dir == PortDir::Input,"
 P0 = "old(self).ports@[idx as int]"
 P1 = "final(self).ports@[idx as int]"
+
+
+def only_jobs(jobs):
+    """VP_ONLY=verus|kani restricts a dry run (`./check --unit`) to one back end: a convenience for mutation smoke tests only;
+    `./check <property>` then reports the other job's baseline obligations as not attempted (undecided), never as passed"""
+    import os
+    only = os.environ.get("VP_ONLY", "")
+    if only == "verus":
+        return [j for j in jobs if isinstance(j, VerusJob)]
+    if only == "kani":
+        return [j for j in jobs if isinstance(j, KaniJob)]
+    return jobs
 
 
 def build(ctx, res):
@@ -84,7 +97,7 @@ def build(ctx, res):
 
     f = h.item("fn", "set_input", impl="HostContext")
     f.drop_stmt_macro("debug_assert_eq")
-    f.replace("port.mask_xz.iter_mut().for_each(|m| *m = 0);", "vp_zero_fill(&mut port.mask_xz);", rule="O6")
+    f.sub_opt(r"port\.mask_xz\.iter_mut\(\)\.for_each\(\|m\| \*m = 0\)", "vp_zero_fill(&mut port.mask_xz)", rule="O6")
     f.spec("    requires " + PORT_PRE + """
         // a source shorter than the port's buffer makes `&words[..n]` panic: the caller must deliver at least n words
         words@.len() >= %(p0)s.words@.len(),
@@ -120,7 +133,7 @@ def build(ctx, res):
     add(f, "HostContext::svc_port_words_len")
 
     f = h.item("fn", "svc_write_output", impl="HostContext")
-    f.replace("None => port.mask_xz.iter_mut().for_each(|m| *m = 0),", "None => vp_zero_fill(&mut port.mask_xz),", rule="O6")
+    f.sub_opt(r"port\.mask_xz\.iter_mut\(\)\.for_each\(\|m\| \*m = 0\)", "vp_zero_fill(&mut port.mask_xz)", rule="O6")
     f.spec("""    requires
         // copy_from_slice panics on a length mismatch: both transports pass exactly svc_port_words_len(idx) words (host_write_output, wasm write_output)
         ((idx as int) < old(self).ports@.len() && %(p0)s.dir == PortDir::Output) ==> {
@@ -173,7 +186,7 @@ def build(ctx, res):
     res.clauses.update({
         "words_for (host.rs, value.rs)": "ensures r == max(1, ceil(width/64)) for every u32 width",
         "HostContext::add_port_role": "ensures the new port is wf (payload and mask have words_for(width) zero words), dirty=false; all other ports and fields untouched",
-        "HostContext::set_input": "requires idx in range, words.len() >= n (n = port word count; a shorter source panics in `&words[..n]`); ensures port.words == words[..n] "
+        "HostContext::set_input": "requires idx in range, an input port (the debug_assert), words.len() >= n (n = port word count; a shorter source panics in `&words[..n]`); ensures port.words == words[..n] "
                                   "(a longer source is truncated), mask all zero (length kept), name/dir/role/width/dirty unchanged, every other port and field unchanged. NO dirty flag is maintained for inputs.",
         "HostContext::set_input_masked": "requires additionally mask_xz.len() >= n and port.mask_xz.len() == n; ensures port.words == words[..n], port.mask_xz == mask_xz[..n], frame as set_input",
         "HostContext::svc_write_output": "requires for an in-range output port: words.len() == n and mask (if Some) has the port's mask length (else copy_from_slice panics; both transports "
@@ -184,7 +197,8 @@ def build(ctx, res):
     res.samples.append({"obligation": "verus:hostcopy:HostContext::svc_write_output", "contract": "see contract_clauses"})
     expect = ["words_for", "HostContext::add_port_role", "HostContext::set_input", "HostContext::set_input_masked", "HostContext::svc_port_words_len",
               "HostContext::svc_write_output", "value::words_for", "value::mask_top_word", "lemma_mask_low", "lemma_bit_zero", "lemma_keep_top"]
-    return [VerusJob("hostcopy", text, vf, expect, canaries=CANARIES, items=items, trusted=TRUSTED, rlimit=60), kani_job(ctx, res)]
+    jobs = [VerusJob("hostcopy", text, vf, expect, canaries=CANARIES, items=items, trusted=TRUSTED, rlimit=60), kani_job(ctx, res)]
+    return only_jobs(jobs)
 
 
 # E1: the `use` lines of value.rs (`use crate::{Result, bail, sys}; use smallvec::SmallVec;`) are replaced by this prelude: the real smallvec
@@ -274,3 +288,18 @@ MASK_GHOST = """    proof {
             }
         }
     }"""
+
+
+def replay(ctx, res, failure):
+    """seeded native run of the Item.orig text of the functions under contract (Verus job) against the executable postconditions of replay.rs"""
+    from vp.core import native_search, NATIVE_RNG
+    h, v = ctx.src(H), ctx.src(V)
+    o = lambda src, kind, name, impl=None: src.item(kind, name, impl=impl).orig
+    body = NATIVE_RNG + "\n" + "\n".join([
+        o(h, "enum", "PortDir"), o(h, "enum", "PortRole"), o(h, "struct", "HostPort"), o(h, "struct", "HostTraceVar"), o(h, "enum", "HostValue"),
+        o(h, "struct", "HostContext"), o(h, "fn", "words_for"),
+        "impl HostContext {", o(h, "fn", "new", "HostContext"), o(h, "fn", "add_port_role", "HostContext"), o(h, "fn", "set_input", "HostContext"),
+        o(h, "fn", "set_input_masked", "HostContext"), o(h, "fn", "svc_port_words_len", "HostContext"), o(h, "fn", "svc_write_output", "HostContext"), "}",
+        "mod value {", o(v, "fn", "words_for"), o(v, "fn", "mask_top_word").replace("fn mask_top_word", "pub fn mask_top_word", 1), "}",
+    ]) + "\n" + ctx.unit_file("hostcopy", "replay.rs")
+    return native_search(ctx, "hostcopy", "hostcopy", "#![allow(dead_code)]\n" + body, args=[ctx.seed], timeout=900)
